@@ -364,3 +364,93 @@ func collectFieldLoads(v ssa.Value, f func(*ssa.FieldAddr)) {
 		v = u.X
 	}
 }
+
+// R-MAPKEYCANON (C13): a wrapped Go map with numeric keys is a live view of that map: only the
+// canonical string of a number names one of its elements. Converting an arbitrary property name with
+// ToNumber semantics turns every non-numeric name into key 0 - `m.foo` read m[0], `"bar" in m` was
+// true, `m.baz = x` overwrote m[0] in the host's map, and toString/valueOf resolved to m[0].
+// Rule: in objectGoMapReflect.strToKey the conversion of the name for a non-string key type (the toKey
+// call) is preceded by a return of the invalid reflect.Value that is controlled by a test of the name
+// (the canonical round trip), i.e. some path rejects names before converting.
+var MapKeyCanon = &core.Rule{Name: "R-MAPKEYCANON", Run: func(p *core.Prog) *core.Result {
+	res := core.NewResult("R-MAPKEYCANON", 1)
+	f, err := p.GojaMethod("objectGoMapReflect", "strToKey")
+	if err != nil {
+		return res.Fail(err)
+	}
+	toKey, err := p.GojaMethod("objectGoMapReflect", "toKey")
+	if err != nil {
+		return res.Fail(err)
+	}
+	key := "(*objectGoMapReflect).strToKey:non-numeric names are rejected before the numeric conversion"
+	calls := core.CallsIn(f, toKey)
+	if len(calls) == 0 {
+		res.Unknown(key, p.Pos(f.Pos()), "no toKey call")
+		return res
+	}
+	// a return of the zero reflect.Value (an unset local of type reflect.Value) that the name's own test controls:
+	// approximated as: some If in the function has a condition computed from a call that takes a value
+	// derived from the name parameter, and one of its branches returns without calling toKey
+	name := f.Params[1]
+	rejects := false
+	for _, b := range f.Blocks {
+		c := ifCond(b)
+		if c == nil {
+			continue
+		}
+		fromName := false
+		var walk func(v ssa.Value, d int)
+		walk = func(v ssa.Value, d int) {
+			if v == nil || d > 8 || fromName {
+				return
+			}
+			if v == ssa.Value(name) {
+				fromName = true
+				return
+			}
+			switch x := v.(type) {
+			case *ssa.Call:
+				for _, a := range x.Call.Args {
+					walk(a, d+1)
+				}
+				if x.Call.IsInvoke() {
+					walk(x.Call.Value, d+1)
+				}
+			case *ssa.UnOp:
+				walk(x.X, d+1)
+			case *ssa.BinOp:
+				walk(x.X, d+1)
+				walk(x.Y, d+1)
+			case *ssa.MakeInterface:
+				walk(x.X, d+1)
+			case *ssa.ChangeInterface:
+				walk(x.X, d+1)
+			case *ssa.Convert:
+				walk(x.X, d+1)
+			}
+		}
+		walk(c, 0)
+		if !fromName {
+			continue
+		}
+		for _, s := range b.Succs {
+			if _, ok := s.Instrs[len(s.Instrs)-1].(*ssa.Return); ok {
+				hasToKey := false
+				for _, in := range s.Instrs {
+					if _, ok := core.CallTo(in, toKey); ok {
+						hasToKey = true
+					}
+				}
+				if !hasToKey {
+					rejects = true
+				}
+			}
+		}
+	}
+	if rejects {
+		res.OK(key, p.Pos(calls[0].Pos()), "a test of the name leads to a return without conversion")
+	} else {
+		res.Bad(key, p.Pos(calls[0].Pos()), "every property name is converted to the numeric key type with ToNumber semantics: all non-numeric names alias key 0 (m.foo reads m[0], m.baz = x overwrites it in the host's map)")
+	}
+	return res
+}, Doc: "objectGoMapReflect.strToKey rejects names that are not the canonical string of a number before converting them to a numeric key"}
